@@ -700,6 +700,17 @@ func (ex *Exec) havocLoop(st *State, fc *FnCtx, li *loopInfo, ms *ModSet, cells 
 			ex.assumeWellTyped(st, v, c.typ)
 		}
 	}
+	for b := range li.body {
+		for _, in := range b.Instrs {
+			if nx, ok := in.(*ssa.Next); ok {
+				if it, ok := st.env[nx.Iter].(*RangeIter); ok && it.Instr != nil {
+					if vis, ok := st.visited[it.Instr]; ok {
+						st.visited[it.Instr] = ex.fresh("visited", vis.So)
+					}
+				}
+			}
+		}
+	}
 	ex.applyModSet(st, ms, nil)
 	ex.bumpAlloc(st)
 }
@@ -722,6 +733,7 @@ func (ex *Exec) applyModSet(st *State, ms *ModSet, only map[string][]Term) {
 		nv := ex.fresh("hv", arraySort(sInt, vs))
 		ex.compSorts[c] = vs
 		st.heap.m[c] = nv
+		st.pendingBound = append(st.pendingBound, c)
 	}
 	if len(fresh.comps) > 0 {
 		// written only at objects allocated by the callee / loop itself:
